@@ -980,12 +980,12 @@ class Exec:
         try:
             for c in starts:
                 if c[0] != 'normal': yield c; continue
-                work.append((c[1], k != 'Do'))
+                work.append((c[1], k != 'Do', frozenset()))
             bounded = False
             c0 = s.get('cond')
             if c0 and c0.get('k') == 'bin' and c0.get('op') in ('!=', '<', '<=') and 'v' in (c0.get('r') or {}): bounded = True
             while work:
-                s0, check = work.pop()
+                s0, check, anc = work.pop()
                 self.gc(s0)
                 env0 = s0.env.setdefault(fr.fid, {})
                 if not bounded:
@@ -1001,8 +1001,12 @@ class Exec:
                                     s0.zadd(nsym.id, y, v2 + c)
                             env0[k2] = nsym
                 sg = (sig(s0), check)
+                if sg in anc:
+                    # the same abstract state at the loop head again *on this very path*: an iteration without any change
+                    self.mon.on_cycle(self, s0, s, fr)
                 if sg in seen: continue
                 seen.add(sg)
+                anc = anc | {sg}
                 if len(seen) > self.max_loop_states: raise Budget()
                 def run_body(s1):
                     for c in list(self.exec(s['body'], s1, fr)):
@@ -1010,9 +1014,9 @@ class Exec:
                             if k == 'For' and s.get('inc'):
                                 for v3, s3 in self.ev(s['inc'], c[1], fr):
                                     if isinstance(v3, Thrown): outs.append(('throw', v3.what, s3))
-                                    else: work.append((s3, True))
+                                    else: work.append((s3, True, anc))
                             else:
-                                work.append((c[1], True))
+                                work.append((c[1], True, anc))
                         elif c[0] == 'break':
                             outs.append(('normal', c[1]))
                         else:
